@@ -932,7 +932,7 @@ pub fn run(tier: Tier) -> i32 {
         coverage: json!({
             "evaluations": cnt.evals.load(Ordering::Relaxed) + cnt.error_cases.load(Ordering::Relaxed),
             "distinct_nontrivial": cnt.nontrivial.load(Ordering::Relaxed),
-            "rule": "const sections (external, literal, reference to an earlier const, min/max/+/- incl. nested, 1-3 declarations, two parties) for usize/u8/i8/u16/i64/bool x use templates (array type size, repeat size, single-array-parameter parties, loop count, value use, value read by the callee of a function whose parameter has the constant's name, index, const-expression size) x ALL assignments of the externals over {0,1,2,3,MAX-1,MAX,MIN,-1} (sizes {0,1,2,3,5,MAX}); thorough additionally enumerates EVERY constant expression with <= 2 operators (min/max/+/-, nested either side, parenthesised) over the atoms {A = P::A, Q::B, 1, 2, MAX} as `const B = <expr>` for each type; differential oracle: the same program with the harness-evaluated values (wrapping arithmetic of the constant's type) substituted as literals must have the same party sizes, output width and outputs on every input; literal entry points (literal_arg, parse_arg, Evaluator::set_literal / run / into_literal) of identity programs whose parameter and return types nest const-sized arrays ([[u8;C];R], [(u8,[bool;C]);R], [S;R] with a const-sized field) for all R, C in 0..=3; failure space: every combination of {fine, missing, 6 wrongly typed literals} for 3 declared constants, with and without extra unknown constants; supplied-value menu: every constant type (9 integer types, bool) x every literal {MIN-1, MIN, MIN+1, -1, 0, 1, MAX-1, MAX, MAX+1} of every number type, unspecified numbers, true/false/()/[true]: a literal of the constant's own type that is in range must be accepted, a literal that is not a value of the type must be refused, an accepted literal must behave as the written literal (constant bits and max(A, 0)); non-trivial = pair whose outputs take >= 2 distinct values",
+            "rule": "const sections (external, literal, reference to an earlier const, min/max/+/- incl. nested, 1-3 declarations, two parties, two parties supplying the same name, a supplied value named like a constant of the program) for usize/u8/i8/u16/i64/bool x use templates (shadowed by a parameter / let / loop variable and used as a factor, array type size, repeat size, single-array-parameter parties, loop count, value use, value read by the callee of a function whose parameter has the constant's name, index, const-expression size) x ALL assignments of the externals over {0,1,2,3,MAX-1,MAX,MIN,-1} (sizes {0,1,2,3,5,MAX}); thorough additionally enumerates EVERY constant expression with <= 2 operators (min/max/+/-, nested either side, parenthesised) over the atoms {A = P::A, Q::B, 1, 2, MAX} as `const B = <expr>` for each type; differential oracle: the same program with the harness-evaluated values (wrapping arithmetic of the constant's type) substituted as literals must have the same party sizes, output width and outputs on every input; literal entry points (literal_arg, parse_arg, Evaluator::set_literal / run / into_literal) of identity programs whose parameter and return types nest const-sized arrays ([[u8;C];R], [(u8,[bool;C]);R], [S;R] with a const-sized field) for all R, C in 0..=3; failure space: every combination of {fine, missing, 6 wrongly typed literals} for 3 declared constants, with and without extra unknown constants; supplied-value menu: every constant type (9 integer types, bool) x every literal {MIN-1, MIN, MIN+1, -1, 0, 1, MAX-1, MAX, MAX+1} of every number type, unspecified numbers, true/false/()/[true]: a literal of the constant's own type that is in range must be accepted, a literal that is not a value of the type must be refused, an accepted literal must behave as the written literal (constant bits and max(A, 0)); non-trivial = pair whose outputs take >= 2 distinct values",
             "samples": [sample(0), sample(jobs.len() / 2), sample(jobs.len() - 1)],
             "program_assignment_pairs": cnt.pairs.load(Ordering::Relaxed),
             "pairs_skipped_size_over_48": cnt.skipped_big.load(Ordering::Relaxed),
